@@ -50,6 +50,10 @@ def setup(I, name, cfg=None, **kw):
     b = Bisim(I, name, replay="generators.script" if cfg else None,
               cfg=dict(cfg, module=MP, ref_file=REF_FILE) if cfg else None, **kw)
     b.send_factory = sent_value
+    # precondition for this property: a plan that is being closed / halted does not raise a *different* exception
+    # (the wrappers delegate through several generator layers; which layer turns such an exception into a RuntimeError
+    # is not part of the statement, which excludes close/halt from the exits with cleanup)
+    b.oracle.opt_filter = lambda g, tok, opts: [o for o in opts if not (o == "raise" and "raise_same" in opts and "yield" not in opts)]
     return b, reference_module(I.P, "verif_ref_c23", REF)
 
 
